@@ -11,6 +11,7 @@ import (
 	"runtime"
 	"strings"
 	"sync"
+	"sync/atomic"
 	"testing"
 	"time"
 
@@ -45,6 +46,7 @@ type verifCase struct {
 	Gate    int         `json:"gate1"`    // the generator blocks before sending item Gate-1 until released (0: none)
 	Release string      `json:"release"` // gate: "re" = after the reducer returned (bounded wait), "now" = at once
 	AEOps   []verifAct  `json:"aeops"`   // fn AtomicError: set k | load
+	Barrier int         `json:"barrier"` // mapper op "barrier" waits (bounded) until this many mappers have started
 }
 
 type verifErr struct{ code int }
@@ -273,6 +275,8 @@ func verifRun(c verifCase) map[string]any {
 	}
 	rdDone := make(chan struct{})
 	var rdOnce sync.Once
+	var started int32
+	barrierCh := make(chan struct{})
 	gateReached := make(chan struct{})
 	gateOpen := make(chan struct{})
 	itemIndex := func(item any) int {
@@ -283,6 +287,9 @@ func verifRun(c verifCase) map[string]any {
 	}
 	runActs := func(i int, writer Writer, cancel func(error)) {
 		lg.add("ms", i)
+		if c.Barrier > 0 && int(atomic.AddInt32(&started, 1)) == c.Barrier {
+			close(barrierCh)
+		}
 		defer lg.add("me", i)
 		defer func() { // a panic the script did not raise (e.g. out of writer.Write) is an observation of its own
 			if r := recover(); r != nil {
@@ -320,6 +327,11 @@ func verifRun(c verifCase) map[string]any {
 			case "panic":
 				lg.add("pn", i, a.K)
 				panic(verifPanic{a.K})
+			case "barrier": // makes "more than `workers` mappers at once" observable if the pool admits them
+				select {
+				case <-barrierCh:
+				case <-time.After(300 * time.Millisecond):
+				}
 			case "waitret":
 				lg.add("wb", i)
 				select {
